@@ -205,6 +205,8 @@ class Session(object):
         self.kc_log = []                 # ("add", reg, sec, scr) / ("get", h160), in order
         self.kc_content = (frozenset(), frozenset(), False)
         self.same_as_fresh = True
+        self.hint_problems = []          # see _hint_twin
+        self.hint_placed = 0
         self.raised = None               # create_signed_tx: did it raise SecretExponentMissing
 
     def create_signed(self, p):
@@ -313,8 +315,43 @@ class Session(object):
         c = self.kc_content
         self.kc_content = (c[0] | frozenset(reg), c[1] | frozenset(sec), c[2] or bool(scr))
 
+    def _hint_twin(self, twin, idx, ht, p2sh):
+        """the same pass on a copy of the transaction as it stood before, with NO keys: every signature the
+        real pass left in the transaction is handed over as an outside signature (signature_hints) in its
+        other, high-S form (r, n - s).  Whatever the signer writes from them must again be strict DER, low S
+        (Signer.tla: a signature present is canonical whoever made it); what it can place without the keys
+        (nothing for P2PKH: the public key is not known) is not demanded."""
+        from pycoin.satoshi import der
+        from pycoin.ecdsa.secp256k1 import secp256k1_generator
+        N, order = self.net, secp256k1_generator.order()
+        self.hint_problems = []
+        hints = []
+        for i, pz in enumerate(self.puzzles):
+            for b in unlocking_items(N, self.tx, i, pz):
+                if b and len(b) >= 9 and b[0] == 0x30 and strict_der_problem(b) is None:
+                    r, s = _rs(b)
+                    if 0 < s < order:
+                        hints.append(der.sigencode_der(r, order - s) + b[-1:])
+        if not hints:
+            return
+        before = [unlocking_of(twin, i) for i in range(len(twin.txs_in))]
+        try:
+            twin.sign({}, tx_in_idx_set=idx, hash_type=ht, p2sh_lookup=p2sh, signature_hints=hints)
+        except Exception:  # noqa  (signing with outside signatures only is outside C05's claims: no verdict)
+            return
+        self.hint_placed += sum(1 for i in range(len(twin.txs_in)) if unlocking_of(twin, i) != before[i])
+        for i, pz in enumerate(self.puzzles):
+            for b in unlocking_items(N, twin, i, pz):
+                if b and len(b) >= 9 and b[0] == 0x30:
+                    pr = strict_der_problem(b)
+                    if pr is None and 2 * _rs(b)[1] > order:
+                        pr = "high-s"
+                    if pr:
+                        self.hint_problems.append("input %d: %s" % (i, pr))
+
     def sign(self, p):
         N = self.net
+        self.hint_problems = []
         if p["mech"] == "kc_add":
             self.kc_add(p["reg"], p["sec"], p["scr"], via=p.get("via", "paths"), sc=p.get("sc", "list"))
             return
@@ -332,7 +369,9 @@ class Session(object):
         p2sh = N.tx.solve.build_p2sh_lookup(_script_container(sc, self._scripts())) if p["scr"] else None
         if mech == "lookup":
             hl = N.tx.solve.build_hash160_lookup([self.ring.se(k) for k in sorted(p["K"])])
+            twin = copy.deepcopy(self.tx)
             self.tx.sign(hl, tx_in_idx_set=idx, hash_type=ht, p2sh_lookup=p2sh)
+            self._hint_twin(twin, _index_collection(ic, sorted(i - 1 for i in p["I"])), ht, p2sh)
         elif mech == "wifs":
             wifs = [self.ring.wif(k, "c" if k % 2 else "u") for k in sorted(p["K"])]
             N.tx_utils.sign_tx(self.tx, wifs=wifs, tx_in_idx_set=idx, hash_type=ht, p2sh_lookup=p2sh)
